@@ -292,7 +292,7 @@ def run_case(sh, i, plan):
     # every program starts from cold typelib/typing caches: typing.Union equality ignores member order, so a
     # routine cached for another spelling of "the same" union would otherwise be served (finding D15, see C12)
     clear_typelib_caches(also_typing=True)
-    opts = U.Opts(depth=rng.choice([1, 2, 2, 3, 3, plan["depth"]]))
+    opts = U.Opts(depth=rng.choice([1, 2, 2, 3, 3, plan["depth"]]), none_members=True)
     prog, gen, roots = make_program(rng, opts, nroots=3)
     vg = U.ValueGen(rng)
     try:
